@@ -103,7 +103,7 @@ func (f *g2lFn) constant(tv types.TypeAndValue, e ast.Expr) string {
 		}
 		return "false"
 	case kString:
-		return leanStr(constant.StringVal(v))
+		return f.g.strConst(constant.StringVal(v)) // go2lean_string.go
 	case kInt, kUint:
 		iv := constant.ToInt(v)
 		if iv.Kind() != constant.Int {
@@ -172,6 +172,8 @@ func (f *g2lFn) exprNB(e ast.Expr) string {
 		return f.asVal(x.X)
 	case *ast.IndexExpr:
 		return f.index(x)
+	case *ast.SliceExpr:
+		return f.sliceExpr(x) // go2lean_string.go
 	}
 	f.fail("expression `%s` (%T) is outside the subset", f.src(e), e)
 	return ""
@@ -200,6 +202,9 @@ func (f *g2lFn) ident(id *ast.Ident) string {
 			return "(none : " + f.lean(t) + ")"
 		case kList:
 			return "([] : " + f.lean(t) + ")"
+		}
+		if s, ok := f.nilExt(t); ok { // go2lean_string.go: nil as an `error` stays untyped in go/types
+			return s
 		}
 		if z, ok := f.g.zeroOther(t, f.lean(t)); ok {
 			return z
@@ -296,6 +301,9 @@ func (f *g2lFn) funcOfCall(c *ast.CallExpr) *types.Func {
 }
 
 func (f *g2lFn) call(c *ast.CallExpr) string {
+	if s, ok := f.callExt(c); ok { // go2lean_string.go: strings, make, Sprintf, primitives with pointer receivers
+		return s
+	}
 	if c.Ellipsis.IsValid() {
 		f.fail("variadic call `%s`", f.src(c))
 	}
@@ -433,6 +441,9 @@ func (f *g2lFn) conversion(to types.Type, arg ast.Expr, c *ast.CallExpr) string 
 
 func (f *g2lFn) composite(x *ast.CompositeLit) string {
 	t := f.typeOf(x)
+	if s, ok := f.compositeExt(x, t); ok { // go2lean_string.go: map literals
+		return s
+	}
 	switch g2lKindOf(t) {
 	case kStruct:
 		n := f.namedOf(t)
@@ -479,6 +490,9 @@ func (f *g2lFn) composite(x *ast.CompositeLit) string {
 
 func (f *g2lFn) index(x *ast.IndexExpr) string {
 	t := f.typeOf(x.X)
+	if s, ok := f.indexExt(x, t); ok { // go2lean_string.go: s[i] on strings, m[k] on map literals
+		return s
+	}
 	if s, ok := f.indexOther(x, t); ok {
 		return s
 	}
